@@ -38,6 +38,10 @@ YieldsInOrder == \A i \in Iters : yielded[i] = [k \in 1..Len(yielded[i]) |-> k -
 ExhaustedMeansAll == \A i \in Iters : cur[i] >= NParts => Len(yielded[i]) = NParts
 IndependentCursors == [][\A i \in Iters : (last'[1] \in {"iter", "next"} /\ last'[2] # i) => cur'[i] = cur[i]]_<<cvars, last>>
 ReadOnlyLenGetItem == [][last'[1] \in {"len", "getitem"} => UNCHANGED cvars]_<<cvars, last>>
+\* the cursor/yield core without the observation variable; its inductive invariant is discharged by Apalache
+\* (ContainersInd.tla), TLC checks here that every behaviour of this module is a behaviour of that core
+Ind == INSTANCE ContainersInd
+RefinesInd == Ind!Spec
 View == cvars
 EmitEdge == PrintT(ToJson([a |-> last', lvl |-> TLCGet("level"), s |-> [cur |-> cur], t |-> [cur |-> cur']]))
 =============================================================================
